@@ -1,0 +1,17 @@
+//go:build verif
+
+package mustache
+
+import mparsers "github.com/pip-services3-gox/pip-services3-expressions-gox/mustache/parsers"
+
+// VerifRenderStep, when set, is called once per template token that the renderer
+// is about to process, with the variable map of that rendering. It is used by the
+// verification harness in /verif as a scheduler gate. Compiled only with the
+// "verif" build tag.
+var VerifRenderStep func(variables map[string]string, token *mparsers.MustacheToken)
+
+func verifRenderStep(variables map[string]string, token *mparsers.MustacheToken) {
+	if VerifRenderStep != nil {
+		VerifRenderStep(variables, token)
+	}
+}
